@@ -23,7 +23,8 @@ class Cfg:
     """A session configuration (what the caller asks for)."""
 
     def __init__(self, version="v2c", community="public", user="user", engine_id=b"", auth=None, priv=None,
-                 auth_kt="password", priv_kt="password", auth_secret=b"authpass1234", priv_secret=b"privpass1234"):
+                 auth_kt="password", priv_kt="password", auth_secret=b"authpass1234", priv_secret=b"privpass1234",
+                 via_set_keys=False):
         self.version = version
         self.community = community
         self.user = user
@@ -34,12 +35,15 @@ class Cfg:
         self.priv_kt = priv_kt
         self.auth_secret = bytes(auth_secret)  # password text (the root secret)
         self.priv_secret = bytes(priv_secret)
+        # True: the session is first created with other credentials and the real ones are installed with set_keys()
+        # (the path the clients take after engine-id discovery)
+        self.via_set_keys = bool(via_set_keys)
 
     def describe(self):
         if self.version != "v3":
             return "%s community=%r" % (self.version, self.community)
-        return "v3 user=%r auth=%s/%s priv=%s/%s engine=%s" % (
-            self.user, self.auth, self.auth_kt, self.priv, self.priv_kt, self.engine_id.hex())
+        return "v3 user=%r auth=%s/%s priv=%s/%s engine=%s%s" % (
+            self.user, self.auth, self.auth_kt, self.priv, self.priv_kt, self.engine_id.hex(), " (set_keys)" if self.via_set_keys else "")
 
     # -- independent key derivation ------------------------------------------
     def kul_auth(self, engine_id):
